@@ -66,6 +66,11 @@ func removeHopByHopHeaders(header http.Header) {
 	for _, vs := range header["Connection"] {
 		for _, v := range strings.Split(vs, ",") {
 			k := http.CanonicalHeaderKey(strings.TrimSpace(v))
+			if k == "Via" {
+				// Via is for every recipient and is what loop detection relies on,
+				// a sender cannot make it hop-by-hop.
+				continue
+			}
 			header.Del(k)
 		}
 	}
